@@ -103,6 +103,10 @@ func c11strings(thorough bool) []c11val {
 			vs = append(vs, c11str(a+b))
 		}
 	}
+	// texts that look like escapes (a backslash followed by the letters of an escape) must survive literally
+	for _, t := range []string{`\u003c`, `a\u003eb`, `\u0026`, `\\u003c`, `\n`, `\t`, `\x41`, `\"`, `\/`, `<>&`, `</script>`, "\u2028\u2029"} {
+		vs = append(vs, c11str(t))
+	}
 	vs = append(vs, c11str(""), c11str("plain ascii text"), c11str("Atype"), c11str("zKeyOrder"), c11str("nil"), c11str("true"), c11str("12"))
 	return vs
 }
@@ -329,7 +333,7 @@ func c11all(thorough bool, f func(v c11val, class string) bool) {
 			}
 		}
 		// field names that need care
-		for _, k := range []string{"Zed", "zz", "a1", "with_underscore", "B", "z", "zKeyOrderX", "Atypes"} {
+		for _, k := range []string{"Zed", "zz", "a1", "with_underscore", "B", "z", "zKeyOrderX", "Atypes", "Age", "ABC", "A", "A0", "Addr", "Atyp", "zKeyOrde", "zz9"} {
 			if !f(c11hash(typ, false, []string{k, "a"}, []c11val{c11int(1), c11int(2)}), typ+"-fieldname") {
 				return
 			}
